@@ -83,13 +83,20 @@ _Bool nondet_bool(void);
 #define MINE NP         /* index of the node pushed by the operation under test */
 
 /* nodes are separate objects (not one array): CBMC then keeps every field of every node as its own symbol */
+#ifdef REAL_FREE
+/* variant for "never dereferences a reclaimed node" (C14): nodes are heap objects and reclamation is a real free(), so CBMC's own
+   pointer checks flag any access of the real code to a reclaimed node (reclaimed nodes are not reused in this variant) */
+static mpmc_fifo_node_t *p0, *p1, *p2, *p3, *p4;
+static mpmc_fifo_node_t* node(int i) { return i == 0 ? p0 : i == 1 ? p1 : i == 2 ? p2 : i == 3 ? p3 : p4; }
+#else
 static mpmc_fifo_node_t n0, n1, n2, n3, n4;
 static mpmc_fifo_node_t* node(int i) { return i == 0 ? &n0 : i == 1 ? &n1 : i == 2 ? &n2 : i == 3 ? &n3 : &n4; }
+#endif
 static mpmc_fifo_node_t poison;
 static mpmc_fifo_t F;
 static struct { hazard_pointer_thread_record_t r; hazard_node_t* slots[2]; } H;
 
-enum { ST_FREE = 0, ST_INQ, ST_OURS, ST_RETIRED };
+enum { ST_FREE = 0, ST_INQ, ST_OURS, ST_RETIRED, ST_GONE };
 static int st[NP + 1];
 static _Bool covered_at_retire[NP + 1];
 static mpmc_fifo_node_t* free_prev[NP + 1];
@@ -146,6 +153,11 @@ static int pick_node(int want) {
 
 static void do_reclaim(int n) {   /* a scan reclaims a retired node that we do not protect; its memory is reused for anything */
   __CPROVER_assume(st[n] == ST_RETIRED && !(covered_at_retire[n] && covered(n)));
+#ifdef REAL_FREE
+  st[n] = ST_GONE;
+  free(node(n));
+  return;
+#endif
   st[n] = ST_FREE;
   unsigned k = nondet_uint() % (NP + 3);
   node(n)->prev = k <= NP ? node(k) : (k == NP + 1 ? 0 : &poison);
@@ -241,6 +253,10 @@ static void v_free(hazard_pointer_thread_record_t* h, hazard_node_t* n) {
 }
 
 static void setup(void) {
+#ifdef REAL_FREE
+  p0 = malloc(sizeof(mpmc_fifo_node_t)); p1 = malloc(sizeof(mpmc_fifo_node_t)); p2 = malloc(sizeof(mpmc_fifo_node_t)); p3 = malloc(sizeof(mpmc_fifo_node_t)); p4 = malloc(sizeof(mpmc_fifo_node_t));
+  __CPROVER_assume(p0 && p1 && p2 && p3 && p4);
+#endif
   for (int i = 0; i <= NP; i++) { node(i)->hazard.gc_function = gc_nop; st[i] = ST_FREE; node(i)->prev = &poison; free_prev[i] = &poison; }
   H.r.hazard_pointers_count = 2;
   H.r.retire_threshold = 1000;
